@@ -109,7 +109,7 @@ def perturb(rng, cw, sb):
 
 def run_status_stream(ctx, n):
     rng = ctx.rng
-    cases = []
+    cases = []; only_cases = []
     for i in range(n):
         sb = Sandbox('c16'); sb.git_init_project()
         try:
@@ -205,6 +205,23 @@ def run_status_stream(ctx, n):
             term = cq.cpair(ds.c_disk(files, ids), ds.c_roots(R), ds.c_desired(D, ids), cq.clist(items),
                             cq.cpair(cq.cN(s_['modified']), cq.cN(s_['missing']), cq.cN(s_['extra'])), cq.cbool(nd))
             cases.append((term, rec))
+            if only and doc and doc.get('ok'):
+                # the filtered report as a whole (items, summary, per-root summaries, summary_total) against status_cmd
+                fd = doc['data']
+                def c_item(it):
+                    p_ = rel(it['path'])
+                    d_ = next((d for d in D if d['path'] == p_ and d['target'] == it['target']), None)
+                    e_ = ids.of_bytes(d_['bytes']) if (it.get('expected') and d_) else None
+                    a_ = ds.fobj_of(p_, files[p_], ids) if p_ in files and it.get('actual') else None
+                    return cq.cpair(cq.cstr(it['target']), cq.copt(rel(it.get('root')), cq.cstr), cq.cstr(p_), cq.cN(KIND[it['kind']]),
+                                    cq.copt(e_, cq.cN), cq.copt(a_, ds.c_fobj))
+                c3 = lambda s3: cq.cpair(cq.cN(s3['modified']), cq.cN(s3['missing']), cq.cN(s3['extra']))
+                byroot = cq.clist([cq.cpair(cq.cstr(sr['target']), cq.copt(rel(sr['root']) if sr.get('root') not in (None, '<unknown>') else None, cq.cstr), c3(sr['summary']))
+                                   for sr in fd.get('summary_by_root', [])])
+                oterm = cq.cpair(ds.c_disk(files, ids), ds.c_roots(R), ds.c_desired(D, ids), cq.clist([cq.cN(KIND[k]) for k in only]),
+                                 cq.clist([c_item(it) for it in fd['drift']]), c3(fd['summary']), byroot,
+                                 cq.copt(fd.get('summary_total'), c3))
+                only_cases.append((oterm, dict(rec, filtered=True)))
             kinds = tuple(sorted({x[3] for x in got}))
             ctx.count('status', key=(kinds, tuple(sorted(set(tags))), flt, tuple(only or ())), nontrivial=len(got) > 0,
                       tags=['kind:' + k for k in kinds] + ['t:' + t for t in set(tags)] + (['fallback'] if nd else []))
@@ -214,6 +231,8 @@ def run_status_stream(ctx, n):
             sb.close()
     for c in ctx.corr('status', HEADER, 'check_status', 'status_case', cases, shard_chars=40000):
         ctx.violation('model and implementation disagree on status --json (items / summary / fallback)', c, no_input=True)
+    for c in ctx.corr('status_only', HEADER, 'check_status_only', 'status_only_case', only_cases, shard_chars=40000):
+        ctx.violation('model and implementation disagree on status --only --json (listed items / summary / per-root summaries / summary_total)', c, no_input=True)
 
 def run(ctx):
     quick = ctx.tier == 'quick'
